@@ -226,3 +226,50 @@ def snapshot_cases(seed, count, max_side, tag):
             mask, bl = gen.rand_mask_bl(rng, g) if rng.random() < 0.5 else (mask, bl)
         steps += [dict(op="drop", g=gid) for gid in gids]
         yield flow_case("%s-%d-%d" % (tag, seed, i), g, steps)
+
+
+def parallel_cases(seed, count, max_side, tag, kinds=None, big=False):
+    """C10: the same inputs go through a sequential graph and through graphs whose single router /
+    kernels use 2..16 threads; repeated updates pause / resume / resize the worker pool.  The
+    specification ignores thread counts and kernel thresholds: all observations must coincide."""
+    rng = random.Random(seed)
+    for i in range(count):
+        k = rng.choice(kinds or ["raster", "raster_nc", "profile", "mesh"])
+        if k == "raster_nc":
+            side = max_side * (3 if big else 1)
+            g = gen.raster(rng.randint(2, side), rng.randint(2, side), "queen", gen.rand_bounds_raster(rng), cache=0)
+        elif k == "raster":
+            side = max_side * (3 if big else 1)
+            g = gen.raster(rng.randint(2, side), rng.randint(2, side), rng.choice(["queen", "rook", "bishop"]),
+                           gen.rand_bounds_raster(rng))
+        elif k == "profile":
+            g = gen.profile(rng.randint(2, max_side * (8 if big else 3)), [rng.choice([0, 1, 2]), rng.choice([0, 1, 2])])
+        else:
+            c = max(1, (max_side - 1) * (2 if big else 1))
+            g = gen.lattice_mesh(rng, rng.randint(1, c), rng.randint(1, c), holes=rng.choice([0, 0, 1]))
+        n = gen.grid_size(g)
+        mask, bl = gen.rand_mask_bl(rng, g)
+        tail = rng.choice([[], [gen.op_mst("kruskal", "carve")], [gen.op_mst("boruvka", "basic")]])
+        zs = [gen.rand_field(rng, g, rng.choice(["tied", "distinct", "bowl", "flat"])) for _ in range(2)]
+        thrs = [1] + rng.sample([2, 3, 4, 5, 8, 16], 2)
+        steps = []
+        for gid, t in enumerate(thrs):
+            ops = [gen.op_single(t if t > 1 else 0)] + copy.deepcopy(tail)
+            steps.append(dict(op="new", g=gid, ops=ops))
+            steps.append(dict(op="mask", g=gid, m=mask))
+            steps.append(dict(op="bl", g=gid, bl=bl))
+        for rep, z in enumerate(zs + [zs[0]]):
+            for gid, t in enumerate(thrs):
+                steps.append(dict(op="update", g=gid, z=z))
+                steps.append(dict(op="acc", g=gid, src=[1] * n))
+                steps.append(dict(op="basins", g=gid))
+                for d in ("breadth", "any"):
+                    kt = 1 if t == 1 else rng.choice([2, 3, 4, 7, t])
+                    steps.append(dict(op="kernel", g=gid, dir=d, thr=kt, minblock=rng.choice([0, 0, 1, 2, 5]),
+                                      minlevel=rng.choice([0, 0, 1, 3, 6])))
+                if t == 1:
+                    steps.append(dict(op="kernel", g=gid, dir="depth", thr=1))
+                elif rng.random() < 0.2:
+                    steps.append(dict(op="kernel", g=gid, dir="depth", thr=2))
+        steps += [dict(op="drop", g=gid) for gid in range(len(thrs))]
+        yield flow_case("%s-%d-%d" % (tag, seed, i), g, steps, timeout_ms=30000)
